@@ -14,6 +14,7 @@ def main(tier, seed):
     base = []
     base += families.generated(seed, 70 if quick else 700, feat={'faults': 0.1}, inputs=2, family='gen')
     base += fam_tt.random_tt(seed + 1, 20 if quick else 300)
+    base += families.generated(seed + 2, 20 if quick else 300, feat={'tt': 0.8}, inputs=2, family='gentt15')
     base += fam_tt.template_family(seed, tier)[::2 if quick else 1]
     base += fam_tt.template_family(seed, tier, only=[t for t in fam_tt.TEMPLATES if t[0] in ('forced_preempt_in_defeat_fn', 'preempt_in_defeat_fn')])
     base += fam_tt.scope_family(seed, 6 if quick else 60, iters=(0, 2))
